@@ -6,6 +6,7 @@ import (
 	"math/rand"
 	"os"
 	"regexp"
+	"sort"
 	"strings"
 	"time"
 
@@ -342,6 +343,9 @@ func runScenario(cs *core.Case, r *rand.Rand, o scenarioOpts, tag string) *finge
 			}
 		}
 	}
+	for _, l := range restartAt {
+		sort.Ints(l)
+	}
 	// restart stops replica i the way a node shuts down (BlockChain.Stop: snapshot journal, head tries) and
 	// opens its database again, sometimes with another configuration (an operator changing the flags)
 	restart := func(i, h int, twin bool) bool {
@@ -437,17 +441,18 @@ func runScenario(cs *core.Case, r *rand.Rand, o scenarioOpts, tag string) *finge
 			gl = 30000000 // staking calls carry a gas limit of 5,000,000
 		}
 		if o.Long != nil {
-			po.Random, po.Directed, po.Extra = r.Intn(3), r.Intn(3) == 0, o.Long.specsAt(h, len(w.EOAs))
+			po.Random, po.Directed, po.NoGen, po.Extra = r.Intn(3), r.Intn(3) == 0, o.Heights > 40, o.Long.specsAt(h, len(w.EOAs))
 			gl = configs.BlockGasLimit // what CreateProposalBlock sets
 			if w.Galaxias {
 				gl = configs.BlockGasLimitGalaxias
 			}
 			po.PoolGas = gl
 		}
-		// what the contracts of the storage workload hold before the block (read from the builder's head state, as planTxs does)
+		// what the contracts of the storage workload hold before the block (read from the builder's head state, as planTxs
+		// reads nonces and balances: to the node these are RPC reads, which go through its snapshot and warm its clean cache)
 		preChild := map[common.Address]bool{}
 		if st, err := bch.N.BC.State(); err == nil {
-			for s := uint64(0); s < 2; s++ {
+			for s := uint64(0); s < nSalts; s++ {
 				preChild[childAddr(s)] = st.GetState(childAddr(s), slotKey(0)) != (common.Hash{})
 			}
 		}
@@ -548,6 +553,17 @@ func runScenario(cs *core.Case, r *rand.Rand, o scenarioOpts, tag string) *finge
 			}
 			results[i] = x
 			run.Count("block_executions", 1)
+		}
+		if os.Getenv("C06_DEBUG") != "" {
+			for _, rj := range rs.chains[0].Rej.Take() {
+				cl := "?"
+				for k, tx := range txs {
+					if tx.Hash().Hex() == rj.Tx {
+						cl = specs[k].Class
+					}
+				}
+				fmt.Printf("REJ h=%d class=%s err=%s\n", h, cl, rj.Err)
+			}
 		}
 		run.Eval(1)
 		// acceptance
@@ -707,7 +723,7 @@ func runScenario(cs *core.Case, r *rand.Rand, o scenarioOpts, tag string) *finge
 	if lo != nil {
 		lo.finish(o.Heights)
 	}
-	if cs.I < 2 && (tag == "first" || tag == "corpus" || tag == "valreports") {
+	if (cs.I < 2 && tag == "first") || (cs.I == 0 && (tag == "corpus" || tag == "valreports" || tag == "long")) {
 		var hs []map[string]interface{}
 		for _, h := range fp.Heights {
 			if len(hs) < 4 {
@@ -718,7 +734,14 @@ func runScenario(cs *core.Case, r *rand.Rand, o scenarioOpts, tag string) *finge
 		for _, c := range rs.cfgs {
 			names = append(names, c.Name)
 		}
-		run.Sample(map[string]interface{}{"group": cs.Group, "case": cs.I, "validators": o.NVals, "galaxias": o.Galaxias, "replicas": names, "val_hook": o.ValHook, "staking": o.Staking, "evidence": o.Evidence, "reopen": o.Reopen, "restarts": o.Restarts, "first_heights": hs})
+		smp := map[string]interface{}{"group": cs.Group, "case": cs.I, "validators": o.NVals, "galaxias": o.Galaxias, "replicas": names, "val_hook": o.ValHook, "staking": o.Staking, "evidence": o.Evidence, "reopen": o.Reopen, "restarts": o.Restarts, "first_heights": hs}
+		if lo != nil {
+			smp["heights"], smp["plan"], smp["disk_layer_merges_on_replica_0"], smp["disk_layer_height_at_the_end"] = o.Heights, o.Long, lo.merges, lo.disk
+		}
+		if plan != nil {
+			smp["validator_reports"] = plan.describe()
+		}
+		run.Sample(smp)
 	}
 	return fp
 }
@@ -749,6 +772,7 @@ type planOpts struct {
 	Random   int  // number of randomly drawn transactions (-1: 2-8)
 	Directed bool // storage workload steps among the random transactions
 	PoolGas  uint64
+	NoGen    bool            // no txgen.GenTx transactions (they move up to the sender's whole balance: a long chain would run dry)
 	Extra    []*txgen.TxSpec // planned transactions (nonces are assigned here), placed after the random ones
 }
 
@@ -785,7 +809,7 @@ func planTxs(r *rand.Rand, w *txgen.World, bc *blockchain.BlockChain, height uin
 		} else if po.Directed && r.Intn(4) == 0 {
 			steps = append(steps, directedStep(r, len(w.EOAs)))
 			continue
-		} else if r.Intn(3) == 0 { // call of a fixed contract
+		} else if po.NoGen || r.Intn(3) == 0 { // call of a fixed contract
 			from := r.Intn(len(w.EOAs))
 			to := fixedAddr(r.Intn(4))
 			spec = &txgen.TxSpec{From: from, To: &to, Value: big.NewInt(int64(r.Intn(100))), Gas: uint64(150000 + r.Intn(200000)), Price: big.NewInt(int64(1 + r.Intn(50))), Class: "fixed-contract"}
